@@ -68,6 +68,9 @@ def make(c: dict):
         X = X.to_sptensor()
     r2 = np.random.RandomState(c["seed"] + 11)
     init = ttb.ktensor([r2.rand(s, R) + 0.1 for s in shape], np.ones(R))
+    if c.get("warm"):
+        # a guess close to the generating model, with its (non-uniform) weights: hard to improve on in one inner step
+        init = ttb.ktensor([u * (1 + 0.01 * r2.rand(*u.shape)) for u in U], lam * (1 + 0.01 * r2.rand(R)))
     if c["zero_row"]:
         init.factor_matrices[1][0, :] = 0.0
     return X, Xd, init
@@ -78,7 +81,7 @@ def run(c: dict, maxiters: int, printitn: int):
     ttb = bind.ttb
     X, Xd, init = make(c)
     kw = dict(algorithm=c["alg"], stoptol=c["stoptol"], maxiters=maxiters, init=init, maxinneriters=c["maxinner"],
-              printitn=printitn, printinneritn=0, stoptime=1e9)
+              printitn=printitn, printinneritn=0, stoptime=(0.0 if c.get("stoptime0") else 1e9))
     if c["alg"] != "mu":
         kw["precompinds"] = bool(c["precompinds"])
     if c["alg"] == "pdnr":
@@ -190,8 +193,16 @@ def main(tier: str) -> int:
                                      "rank": rr.choice([1, 2, 2, 3]), "seed": sd + rr.randrange(6), "stoptol": rr.choice([1e-4, 1e-4, 1e-2, 0.0]),
                                      "printitn": rr.choice([0, 1, 2]), "precompinds": rr.choice([True, False]),
                                      "inexact": rr.choice([True, False]), "lbfgs": rr.choice([1, 3, 5]),
-                                     "empty_slice": rr.random() < 0.35, "zero_row": rr.random() < 0.25})
+                                     "empty_slice": rr.random() < 0.35, "zero_row": rr.random() < 0.25,
+                                     "warm": rr.random() < 0.3, "stoptime0": rr.random() < 0.15})
                         i += 1
+    # warm, weighted starts with the tightest limits: one inner step from a guess that is already close to the optimum
+    for alg in ("mu", "pdnr", "pqnr"):
+        for sp in (False, True):
+            for mi in (1, 2):
+                runs.append({"alg": alg, "shape": [4, 3, 3], "sparse": sp, "maxiters": mi, "maxinner": mi, "rank": 3, "seed": sd + mi,
+                             "stoptol": 1e-4, "printitn": 0, "precompinds": True, "inexact": bool(mi % 2), "lbfgs": 3,
+                             "empty_slice": False, "zero_row": False, "warm": True})
     # witnesses of K-C11-sparse-all-zero-data (dense all-zero data is answered by mu and pdnr)
     for alg in ("mu", "pdnr", "pqnr"):
         for sp in (False, True):
